@@ -29,6 +29,7 @@ ReqVid(x) == 30 + x              \* ids 31..35 are the strings "1".."5"
 ReqOfVid(v) == IF v = 0 THEN 0 ELSE v - 30
 TrueLike == {7, 27, 10}          \* True, "True", "true"
 Max2(a, b) == IF a >= b THEN a ELSE b
+FailModes == {"fail", "failb"}
 
 MaxRetries(c, f) == IF f["max_retries"] = 0 THEN c.retry.defcount ELSE IntOfVid(f["max_retries"])
 RetryEnabled(c, f) == IF f["retry_on_error"] = 0 THEN c.retry.deflabel ELSE f["retry_on_error"] \in TrueLike
@@ -133,14 +134,14 @@ ClCheck(c, op, o, ev) ==
   \cup (IF ev.e = "kick" /\ sn.origin \in {"retry", "requeue"} /\ ev.tid # sn.etid THEN {"C11_SameTaskId"} ELSE {})
   \cup (IF ev.e = "ran" /\ op.run.j \in DOMAIN op.msg THEN
           LET mx == MaxRetries(c, par.exp)
-              resend == op.run.mode = "fail" /\ c.retry.on /\ RetryEnabled(c, par.exp) /\ par.att < mx
+              resend == op.run.mode \in FailModes /\ c.retry.on /\ RetryEnabled(c, par.exp) /\ par.att < mx
               expKicks == IF resend \/ op.run.mode = "requeue" THEN 1 ELSE 0
               expSaves == CASE op.run.mode = "ok" -> 1
                             [] op.run.mode \in {"nores", "requeue"} -> 0
                             [] OTHER -> IF resend /\ c.retry.nores THEN 0 ELSE 1
           IN (IF op.run.mode # "requeue" /\ op.run.kicks # expKicks
               THEN {IF op.run.kicks > expKicks THEN "C11_Bound" ELSE "C11_Continues"} ELSE {})
-             \cup (IF op.run.saves # expSaves \/ (op.run.saves = 1 /\ op.run.saveErr # (op.run.mode = "fail"))
+             \cup (IF op.run.saves # expSaves \/ (op.run.saves = 1 /\ op.run.saveErr # (op.run.mode \in FailModes))
                    THEN {"C11_Results"} ELSE {})
              \cup (IF op.run.execs # 1 THEN {"C11_ExecOnce"} ELSE {})
         ELSE {})
